@@ -124,6 +124,31 @@ func (c *exprCtx) expr(v ssa.Value, depth int) *Expr {
 		for _, a := range cc.Args {
 			e.Args = append(e.Args, c.expr(a, d))
 		}
+		// a pure in-package helper (no writes): its result depends on the fields it reads through
+		// its pointer arguments — expose them, so that extracting `x.Negative != y.Negative` into a
+		// helper does not hide the dependence
+		if g := cc.StaticCallee(); g != nil && c.w.inPkg(g) && g.Signature.Recv() == nil {
+			sum := c.w.summary(g)
+			pure := len(sum.GWrites) == 0
+			for i := range sum.Writes {
+				if len(sum.Writes[i]) > 0 {
+					pure = false
+				}
+			}
+			if pure {
+				for i, a := range cc.Args {
+					if i >= len(sum.Reads) || !isPointer(a.Type()) {
+						continue
+					}
+					for _, fld := range sortedKeys(sum.Reads[i]) {
+						if fld == allFields {
+							continue
+						}
+						e.Args = append(e.Args, &Expr{Op: "field", Name: fld, Args: []*Expr{c.expr(a, d)}})
+					}
+				}
+			}
+		}
 		return e
 	case *ssa.Slice:
 		return &Expr{Op: "slice", Args: []*Expr{c.expr(x.X, d)}, V: v}
